@@ -55,3 +55,42 @@ func H_C12_byte() {
 	verifObserve("out", out)
 	verifAssert(specUintConstIs(out, "uint8", uint64(b)), "constant of type byte with value b")
 }
+
+// one literal of each flavour, with its own inputs
+func c12Literal(kind int, tag string) *Statement {
+	switch kind {
+	case 0:
+		return Lit(int32(nondetInt(tag+"v", -2147483648, 2147483647)))
+	case 1:
+		return Lit(uint8(nondetInt(tag+"b", 0, 255)))
+	case 2:
+		return LitRune(rune(nondetInt(tag+"r", 0, 0x10ffff)))
+	case 3:
+		return LitByte(byte(nondetInt(tag+"b", 0, 255)))
+	case 4:
+		return Lit(nondetString(tag + "s"))
+	}
+	return Lit(nondetInt(tag+"i", -1000000, 1000000))
+}
+
+// a literal's text is a function of its value alone: whatever the same File rendered before
+// (a literal of another flavour with, possibly, the same underlying value), a rune, byte or
+// string literal comes out exactly as in a fresh File
+func H_C12_in_context() {
+	f := NewFile("p")
+	first := c12Literal(nondetChoice("first", 6), "first_")
+	b0 := &bytes.Buffer{}
+	verifAssert(first.render(f, b0, nil) == nil, "no error")
+	target := c12Literal(2+nondetChoice("target", 3), "")
+	b1 := &bytes.Buffer{}
+	verifAssert(target.render(f, b1, nil) == nil, "no error")
+	fresh, err := renderOne(target)
+	verifAssert(err == nil, "no error")
+	verifObserve("out", b1.String())
+	verifAssert(b1.String() == fresh, "a literal renders the same whatever the File rendered before")
+	// and the other way round inside one statement
+	both := &bytes.Buffer{}
+	st := newStatement().Add(first).Add(target)
+	verifAssert(st.render(NewFile("p"), both, nil) == nil, "no error")
+	verifAssert(both.String() == b0.String()+" "+fresh, "two literals in one statement render as each alone")
+}
